@@ -184,6 +184,10 @@ class Flux(AgentExecutingComponent) :
             state = rps.FAILED
             push  = False
 
+        elif ename == 'exception' and event.context.get('severity', 0) > 0:
+            # only exceptions of severity 0 are fatal, otherwise the job goes on
+            self._log.warn('flux exception for %s: %s', task_id, event.context)
+
         elif ename == 'exception' and \
              event.context['type'] in ['cancel', 'timeout']:
 
